@@ -374,6 +374,11 @@ def run(repo: Repo, rep, tier: str):
     # history of either simulator - the normal one has stored the executing minute before it matches it, the fast matcher has not
     from props.c07 import check_partial
     rep.guarded(check_partial, repo, rep, tier, "C12-R7")
+    from props import sessions as S_
+    rep.rule("C12-R8", "mini sessions: like the normal simulator, the fast one generates a higher-timeframe candle only from minutes that have "
+                       "been matched, and after their matching (a candle generated before the chunk's fills is overwritten by the partial "
+                       "candle of a fill and never rebuilt: the strategy at the chunk end decides on a truncated candle)")
+    rep.guarded(S_.check_generation, repo, rep, "C12-R8")
     rep.undecided_item("equality of whole-session outputs (trades, balances) of the two simulators for arbitrary strategies - decided per span and structurally")
     rep.undecided_item("spans longer than two minutes / more than one fill per span (outside the property's precondition)")
 
